@@ -4,9 +4,10 @@ Only property theorems live here (helper lemmas: `Lemmas/Units.lean`; model: `Mo
 executable predicates run on the implementation's output: `Spec/C18.lean`).
 -/
 import Bermuda.Lemmas.Units
+import Bermuda.Lemmas.UnitsPolicy
 import Bermuda.Spec.C18
 namespace Bermuda.Properties.C18
-open Bermuda Bermuda.Units
+open Bermuda Bermuda.Units Bermuda.Spec.C18
 
 /-! ### 1. convert_currency -/
 
@@ -173,13 +174,10 @@ theorem policyYear_basis {t out : List Cell} {len : Nat} {origin : Date} {cont :
     · exact hb o h1
     · exact hr o h1
 
-/-- **policyYear_conserves_partial.** The share table as the code computes it: for every accident
-period the shares over the policy years sum to 1 — unless the raw total is 0, in which case they
-sum to 0 (the contract "row sums positive", `Spec.C18.policyCovered`). Hence an amount `v` of an
-accident period is redistributed without loss: Σ_py v·share = v.
-Missing for the full statement (OPEN below): carrying this through the per-evaluation-date
-accumulation of `policyCell`. -/
-theorem policyYear_conserves_partial {ps pys : List (Date × Date)} {len : Nat} {cont : Bool}
+/-- the share table as the code computes it: for every accident period the shares over the policy
+years sum to 1 — unless the raw total is 0 (then 0; excluded by the contract "row sums positive",
+`Spec.C18.policyCovered`). Hence an amount `v` of an accident period is split without loss. -/
+theorem policyYear_shares_split {ps pys : List (Date × Date)} {len : Nat} {cont : Bool}
     {e : (Date × Date) × List ((Date × Date) × Rat)} (he : e ∈ aqShares ps pys len cont) (v : Rat)
     (hpos : (e.2.map (·.2)).sum ≠ 0) :
     ((e.2.map (·.2)).map (v * ·)).sum = v := by
@@ -188,10 +186,53 @@ theorem policyYear_conserves_partial {ps pys : List (Date × Date)} {len : Nat} 
   · rw [h, mul_one]
   · exact absurd h hpos
 
--- OPEN policyYear_conserves
---   aqToPolicyYear t len origin cont = .ok out → Spec.C18.policyCovered t len origin cont →
---   Spec.C18.policyYearSpec 0 t out = true
--- (per slice, evaluation date and field the total is unchanged)
+/-- every field keeps one shape within a slice: the values of a field are all scalars (0-d arrays
+count as scalars) or all arrays of one length (what `has_consistent_values_shapes` checks; without
+it numpy broadcasts a scalar over an array and componentwise totals are not defined) -/
+def UniformShapes (t : List Cell) : Prop :=
+  ∃ fsig : Metadata → String → Option Nat, ∀ c ∈ t, ∀ kv ∈ c.values, sgIn kv.2 = fsig c.md kv.1
+
+/-- **policyYear_conserves.** Model-level conservation: for every (Policy-basis) slice metadata
+`m'`, evaluation date `d`, field `f` and component `i`, the total over the result's cells equals
+the total over the input cells of the slices that map to `m'` — provided the share table satisfies
+its contract (`policyCovered`: every accident period's row sums to 1) and shapes are uniform.
+`total`/`cellField`/`comp` are in `Spec/C18.lean`. -/
+theorem policyYear_conserves {t out : List Cell} {len : Nat} {origin : Date} {cont : Bool}
+    (h : aqToPolicyYear t len origin cont = .ok out)
+    (hcov : policyCovered t len origin cont = true) (hu : UniformShapes t)
+    (m' : Metadata) (d : Date) (f : String) (i : Nat) :
+    total (out.filter fun o => o.md == m' && o.ev == d) f i =
+      total (t.filter fun c => toPolicy c.md == m' && c.ev == d) f i := by
+  obtain ⟨fsig, hsig⟩ := hu
+  unfold aqToPolicyYear at h
+  obtain ⟨rs, hF, hp⟩ := foldlM_add_spec (F := fun sl => aqToPolicyYearSlice sl len origin cont) _ _ _ h
+  rw [total_perm (hp.filter _), List.nil_append, total_flatten_filter,
+    total_perm ((slices_flatten_perm t).symm.filter _), List.flatMap_def, total_flatten_filter,
+    List.map_map]
+  refine sum_forall2 hF _ _ ?_
+  intro sl r hsl hr
+  simp only [Function.comp]
+  have hmd : ∀ c ∈ sl.2, c.md = sl.1 := fun c hc => (mem_slices_md hsl hc).1
+  refine policyYearSlice_spec (fsig := fsig sl.1) hmd ?_ ?_ hr m' d f i
+  · intro c hc kv hkv
+    rw [← hmd c hc]; exact hsig c (mem_slices_md hsl hc).2 kv hkv
+  · intro pys hpys row hrow
+    unfold policyCovered at hcov
+    have := List.all_eq_true.mp hcov sl hsl
+    simp only [hpys] at this
+    have := List.all_eq_true.mp this row hrow
+    simpa using this
+
+/-- non-vacuity: one accident quarter, calendar policy year, 12-month policies -/
+def exQ1 : Cell :=
+  { kind := .cumulative, ps := Date.mk 2020 1 1, pe := Date.mk 2020 3 31, ev := Date.mk 2020 3 31,
+    values := [("paid_loss", Val.int 100)], md := {} }
+
+example : policyCovered [exQ1] 12 (Date.mk 2020 1 1) true = true := by decide +kernel
+example : aqToPolicyYear [exQ1] 12 (Date.mk 2020 1 1) true =
+    .ok [{ exQ1 with ps := Date.mk 2020 1 1, pe := Date.mk 2020 12 31, values := [("paid_loss", Val.flt 100)], md := { riskBasis := some "Policy" } }] := by
+  decide +kernel
+example : UniformShapes [exQ1] := ⟨fun _ _ => none, by decide⟩
 
 /-! ### 4. program_earned_premium -/
 
@@ -263,8 +304,34 @@ theorem premium_nonneg {vol : Rat} {wp ep : List Rat} {wres eres ores : Nat} {of
 example : programEarnedPremium 600 [1] 1 [1, 1, 1, 1, 1, 1] 1 1 0 true =
     .ok ([0, 600, 0, 0, 0, 0, 0, 0], [0, 50, 100, 100, 100, 100, 100, 50]) := by decide +kernel
 
--- OPEN premium_earned_le_written
---   same hypotheses → ∀ k, ((e.take k).sum ≤ (w.take k).sum)
---   (convolution bound Σ_{n≤m} w_n·E(m−n) ≤ Σ_{n≤m} w_n with E the cumulative earning fraction ≤ 1)
+/-- **premium_earned_le_written.** at every output step the cumulative earned premium is at most
+the cumulative written premium (convolution bound: a policy written in month n has earned at most
+its own premium by any later month, nothing before) -/
+theorem premium_earned_le_written {vol : Rat} {wp ep : List Rat} {wres eres ores : Nat} {off : Int}
+    {c : Bool} {w e : List Rat} (hv : 0 ≤ vol) (hwp : ∀ x ∈ wp, 0 ≤ x) (hep : ∀ x ∈ ep, 0 ≤ x)
+    (h : programEarnedPremium vol wp wres ep eres ores off c = .ok (w, e)) (k : Nat) :
+    (e.take k).sum ≤ (w.take k).sum := by
+  unfold programEarnedPremium at h
+  split at h
+  · cases h
+  · rename_i hcond
+    simp only [Bool.or_eq_true, beq_iff_eq, not_or] at hcond
+    obtain ⟨⟨⟨⟨hw, he⟩, _⟩, her⟩, _⟩ := hcond
+    simp only [Except.ok.injEq, Prod.mk.injEq] at h
+    obtain ⟨rfl, rfl⟩ := h
+    have hmw : NN (monthlyWriting vol wp wres) := monthlyWriting_nn hv hwp hw
+    have hme : NN (monthlyEarning ep eres c) := monthlyEarning_nn hep he
+    have hsum := monthlyEarning_sum ep eres c he her
+    cases k with
+    | zero => simp
+    | succ j =>
+      rw [List.take_succ_cons, List.take_succ_cons, List.sum_cons, List.sum_cons, ← List.map_take,
+        ← List.map_take]
+      obtain ⟨S, _, hS⟩ := bounds_prefix ores (monthlyCombined (monthlyWriting vol wp wres)
+        (monthlyEarning ep eres c)).length ((monthlyCombined (monthlyWriting vol wp wres)
+        (monthlyEarning ep eres c)).length + 1) 0 (if off > 0 then off.toNat else ores) j (Nat.zero_le _)
+      rw [hS, hS]
+      simp only [List.drop_zero, zero_add]
+      exact monthlyCombined_prefix_le hmw hme hsum S
 
 end Bermuda.Properties.C18
